@@ -632,7 +632,12 @@ def _restore_typed_primitive(
             raise DeserializeException(f"Expected type bytes but got {type(v)}")
         return t(v)
     elif hasattr(t, "__origin__") and (t.__origin__ is dict):
-        t_args = t.__args__
+        t_args = getattr(t, "__args__", ())
+        if not t_args:
+            # unparameterized Dict hint: nothing to restore inside
+            if not isinstance(v, dict):
+                raise DeserializeException(f"Expected dict type but got {type(v)}")
+            return v
         if len(t_args) != 2:
             raise DeserializeException(
                 f"Dict types need exactly two type arguments, but got {t_args}"
